@@ -237,7 +237,7 @@ class Mode:
             # a LARGE pair of values that differ costs far more to normalise than an equal pair (nothing cancels): look at one
             # concrete point first - a point of the domain (of the current path) at which they differ refutes the equality,
             # with that point as the failing input; agreement there proves nothing and the exact comparison follows
-            if _vsize(vg) + _vsize(ve) > 600 or _nparts(vg) + _nparts(ve) >= 8:
+            if (_vsize(vg) + _vsize(ve) > 600 or _nparts(vg) + _nparts(ve) >= 8) and not (getattr(self, "explorer", None) is not None and self.explorer.pc):
                 quick = self._quick_refute(name, vg, ve, t)
                 if quick is not None:
                     return quick
@@ -344,7 +344,8 @@ class Mode:
                 return None
             return self._rec(name, "failed", "numeric-point+z3", time.time() - t, cex={"env": real, "diff": P.LAST_DIFF[0]},
                              detail="differs at a concrete point of a feasible path (a value-dependent branch in the code)")
-        cex = find_counterexample(vg, ve, self.used, tries=0.25)  # ONE point
+        # ONE point, and only a CLEAR difference counts (1e-8 of the scale at 40 digits: far beyond any rounding of the evaluation)
+        cex = find_counterexample(vg, ve, self.used, tries=0.25, threshold=Fraction(1, 10**8))
         if cex is None:
             return None
         return self._rec(name, "failed", "numeric-point", time.time() - t, cex=cex, got=cex.get("got"), exp=cex.get("exp"),
@@ -598,7 +599,7 @@ def _nparts(v):
         return 0
 
 
-def find_counterexample(vg, ve, used, tries=12, seed=None):
+def find_counterexample(vg, ve, used, tries=12, seed=None, threshold=Fraction(1, 10**20)):
     """a rational point where the two canonical values differ (evaluated at 40 digits)"""
     from . import alg, fields
 
@@ -633,7 +634,7 @@ def find_counterexample(vg, ve, used, tries=12, seed=None):
         except (ZeroDivisionError, KeyError, ValueError) as e:
             continue
         scale = max(abs(a), abs(b), 1)
-        if abs(a - b) > F.num(Fraction(1, 10**20)) * scale:
+        if abs(a - b) > F.num(threshold) * scale:
             return {"env": {k: str(v) for k, v in env.items()}, "got": _num(a), "exp": _num(b)}
     return None
 
